@@ -158,7 +158,12 @@ func (d *differ) walk(a, b reflect.Value, path string) {
 			if f.Name == "_" {
 				continue
 			}
-			d.walk(a.Field(i), b.Field(i), path+"/"+t.Name()+"."+f.Name)
+			label := t.Name() + "." + f.Name
+			if t.Name() == "Order" && f.Name == "Direction" && orderOfNullOrRand(a) {
+				// names the construct (ORDER BY NULL / ORDER BY rand()) in the signature
+				label = "Order(null-or-rand).Direction"
+			}
+			d.walk(a.Field(i), b.Field(i), path+"/"+label)
 		}
 	case reflect.Slice:
 		if a.Type().Elem().Kind() == reflect.Uint8 {
@@ -213,6 +218,21 @@ func dynName(v reflect.Value) string {
 		return "nil"
 	}
 	return v.Elem().Type().String()
+}
+
+// orderOfNullOrRand: the ORDER BY element sorts by NULL or by rand().
+func orderOfNullOrRand(order reflect.Value) bool {
+	e := order.FieldByName("Expr")
+	if !e.IsValid() || e.Kind() != reflect.Interface || e.IsNil() || !e.CanInterface() {
+		return false
+	}
+	switch x := e.Interface().(type) {
+	case *sqlparser.NullVal:
+		return true
+	case *sqlparser.FuncExpr:
+		return x.Name.Lowered() == "rand"
+	}
+	return false
 }
 
 // tryRewrite recognises the documented searchable-encryption rewriting of one comparison
